@@ -220,11 +220,23 @@ class Check:
 
     # ------------------------------------------------------------------ running
     def run_model(self, exe, cases, timeout=600):
-        rc, so, se = sh([exe], inp='\n'.join(cases) + '\n', timeout=timeout)
-        lines = so.splitlines()
-        if rc != 0 or len(lines) != len(cases):
-            raise RuntimeError('modelrun failed rc=%s: %s (got %d lines for %d cases)' % (rc, se[-500:], len(lines), len(cases)))
-        return lines
+        """the extracted model on all cases; large lists are split over worker processes (the model is a pure
+        function of the case line, so the order of evaluation does not matter)"""
+        def one(chunk):
+            rc, so, se = sh([exe], inp='\n'.join(chunk) + '\n', timeout=timeout)
+            lines = so.splitlines()
+            if rc != 0 or len(lines) != len(chunk):
+                raise RuntimeError('modelrun failed rc=%s: %s (got %d lines for %d cases)' % (rc, se[-500:], len(lines), len(chunk)))
+            return lines
+        if len(cases) <= 64:
+            return one(cases)
+        from concurrent.futures import ThreadPoolExecutor
+        nw = min(12, os.cpu_count() or 4)
+        size = max(16, (len(cases) + nw * 4 - 1) // (nw * 4))
+        chunks = [cases[i:i + size] for i in range(0, len(cases), size)]
+        with ThreadPoolExecutor(max_workers=nw) as ex:
+            res = list(ex.map(one, chunks))
+        return [l for r in res for l in r]
 
     def run_impl(self, exe, cases, timeout=300, per_case_timeout=20, env=None, args=None, max_fail=None, stall=None):
         """run the implementation harness on all cases in one process; when it dies or hangs, the case it
